@@ -69,6 +69,7 @@ Variable cclear : XK -> CS -> CS.                          (* Connection.clear (
 Variable nclear : XK -> NS -> NS.                          (* Neuron.clear (kwargs) *)
 Variable vzeros_like : V -> V.                             (* torch.zeros_like *)
 Variable vadd : V -> V -> res V.                           (* a + b (broadcasting may raise) *)
+Variable compat : CS -> NS -> bool.                        (* Cell.__init__: connection.outshape == neuron.shape *)
 
 (* ---------- Layer: network.py:196-650 ---------- *)
 Record layer := mkLayer { conns : list (Z * CS); neurs : list (Z * NS) }.
@@ -127,9 +128,12 @@ Definition layer_learn_n (k : Z) (f : NS -> NS) (L : layer) : layer :=
 
 (* ---------- Serial: network.py:830-1029 ---------- *)
 Record serial := mkSerial { s_layer : layer; s_cn : Z; s_nn : Z; s_tr : V -> V }.
-(* __init__: network.py:857-885 (a fresh Layer, so add_connection / add_neuron cannot raise) *)
-Definition serial_new (c : CS) (n : NS) (tr : option (V -> V)) (cn nn : Z) : serial :=
-  mkSerial (mkLayer [(cn, c)] [(nn, n)]) cn nn (match tr with Some f => f | None => fun x => x end).
+(* __init__: network.py:857-885 (a fresh Layer, so add_connection / add_neuron cannot raise; add_cell builds a
+   Cell, whose constructor raises RuntimeError when the shapes are incompatible, network.py:40-44) *)
+Definition serial_new (c : CS) (n : NS) (tr : option (V -> V)) (cn nn : Z) : res serial :=
+  if compat c n
+  then Ok (mkSerial (mkLayer [(cn, c)] [(nn, n)]) cn nn (match tr with Some f => f | None => fun x => x end))
+  else Err ERuntime.
 (* wiring: network.py:962-981 *)
 Definition serial_wiring (S : serial) (ys : list (Z * V)) : res (list (Z * V)) :=
   match lookup (s_cn S) ys with
@@ -194,7 +198,10 @@ Definition biclique_new (cs : list (Z * CS * option (V -> V))) (ns : list (Z * N
   | _, _ =>
       cl <- add_all cs [] ;;
       nl <- add_all ns [] ;;
-      Ok (mkBiclique (mkLayer cl nl) (trs_of cs) (trs_of ns) combine)
+      (* construct cells: for c in connections: for n in neurons: add_cell (Cell checks the shapes) *)
+      if forallb (fun c => forallb (fun n => compat (snd c) (snd n)) nl) cl
+      then Ok (mkBiclique (mkLayer cl nl) (trs_of cs) (trs_of ns) combine)
+      else Err ERuntime
   end.
 (* {k: self.post_input[k](v) for k, v in inputs.items()} *)
 Fixpoint post_all (post : list (Z * (V -> V))) (ys : list (Z * V)) : res (list (Z * V)) :=
@@ -250,11 +257,14 @@ Record recurrent := mkRecurrent {
   r_in_lat : V -> list V; r_in_fb : V -> list V              (* *_in_transform (OneToMany) *)
 }.
 Definition tuplewrap (x : V) : list V := [x].
-(* __init__: network.py:1101-1170; the five add_* calls raise RuntimeError on a repeated name *)
+(* __init__: network.py:1101-1170; the five add_* calls raise RuntimeError on a repeated name; the feed-forward cell
+   is always built, the lateral and feedback cells only with trainable_feedback (Cell checks the shapes) *)
 Definition recurrent_new (cff clat cfb : CS) (nff nfb : NS)
     (tr_ff tr_lat tr_fb : option (V -> V)) (in_lat in_fb : option (V -> list V))
-    (ffc latc fbc ffn fbn : Z) : res recurrent :=
+    (ffc latc fbc ffn fbn : Z) (trainable_feedback : bool) : res recurrent :=
   if Z.eqb latc ffc || Z.eqb fbc ffc || Z.eqb fbc latc || Z.eqb fbn ffn then Err ERuntime
+  else if negb (compat cff nff) then Err ERuntime
+  else if trainable_feedback && negb (compat clat nfb && compat cfb nff) then Err ERuntime
   else Ok (mkRecurrent (mkLayer [(ffc, cff); (latc, clat); (fbc, cfb)] [(ffn, nff); (fbn, nfb)]) None
              ffc latc fbc ffn fbn (otr tr_ff) (otr tr_lat) (otr tr_fb)
              (match in_lat with Some f => f | None => tuplewrap end)
